@@ -10,6 +10,7 @@ import (
 	"crypto/tls"
 	"crypto/x509"
 	"encoding/xml"
+	rtvalidator "github.com/mattermost/xml-roundtrip-validator"
 	"html"
 	"math/big"
 	"net/url"
@@ -63,6 +64,7 @@ var vxOrigRandReader = rand.Reader
 func vxReset(inputs map[string]interface{}) {
 	rand.Reader = vxOrigRandReader
 	vx = &vxState{inputs: inputs, counters: map[string]int{}, clocks: map[string]*vxClock{}}
+	vxScreenRejected = 0
 }
 
 func vxFresh(name string) string {
@@ -799,11 +801,42 @@ func vxProcess(e *etree.Element) *etree.Element {
 	return out
 }
 
+func vxWalkCharData(e *etree.Element, f func(parent *etree.Element, i int, c *etree.CharData)) {
+	for i := 0; i < len(e.Child); i++ {
+		switch c := e.Child[i].(type) {
+		case *etree.Element:
+			vxWalkCharData(c, f)
+		case *etree.CharData:
+			f(e, i, c)
+		}
+	}
+}
+
 func vxRenderBytes(root *etree.Element) []byte {
 	if root == nil {
 		return []byte("")
 	}
-	out := vxProcess(root.Copy())
+	// CDATA sections: the IdP signs the canonical form (plain text); the CDATA spelling only exists on the wire
+	cp := root.Copy()
+	var cdata []string
+	vxWalkCharData(cp, func(parent *etree.Element, i int, c *etree.CharData) {
+		if c.IsCData() {
+			cdata = append(cdata, parent.Tag+"\x00"+c.Data)
+			parent.RemoveChildAt(i)
+			parent.InsertChildAt(i, etree.NewText(c.Data))
+		}
+	})
+	out := vxProcess(cp)
+	if len(cdata) > 0 {
+		vxWalkCharData(out, func(parent *etree.Element, i int, c *etree.CharData) {
+			for _, k := range cdata {
+				if k == parent.Tag+"\x00"+c.Data && !c.IsCData() {
+					parent.RemoveChildAt(i)
+					parent.InsertChildAt(i, etree.NewCData(c.Data))
+				}
+			}
+		})
+	}
 	d := etree.NewDocument()
 	d.SetRoot(out)
 	b, err := d.WriteToBytes()
@@ -816,6 +849,9 @@ func vxRenderBytes(root *etree.Element) []byte {
 func vEncodeDoc(name string, root *etree.Element, mode int) string {
 	n := vxFresh(name)
 	raw := vxRenderBytes(root)
+	if rtvalidator.Validate(bytes.NewReader(raw)) != nil {
+		vxScreenRejected++
+	}
 	if fb := vxI64(n + ".first_byte"); fb == ' ' || fb == '\n' || fb == '\t' || fb == '\r' {
 		// white space before the root element, as the model chose
 		raw = append([]byte{byte(fb)}, raw...)
@@ -1359,7 +1395,10 @@ func vMarshalRoundTrip(v interface{}, out interface{}) bool {
 func vDigestHashIs(k int, h crypto.Hash) bool         { return true }
 func vDigestCanonIs(k int, c dsig.Canonicalizer) bool { return true }
 
-func vScreenRejections() int { return 0 }
+// vScreenRejections (native): whether xml-roundtrip-validator rejects one of the documents the concretiser produced
+func vScreenRejections() int { return vxScreenRejected }
+
+var vxScreenRejected int
 
 // natively the configuration is compared before/after (vConfigSig); writes are not observable
 func vWatch(sp *SAMLServiceProvider)        {}
